@@ -106,6 +106,57 @@ def main() -> int:
     rej = ctx.validate("KVFile_Trace", "KVFile_Trace.cfg", good + bad + dropped, name="st_kv")
     expect("KVFile_Trace: edit of the wrong line / unlogged edit before a read", rej, [1, 2])
 
+    # C02: a real full grid vs the same record with two cells' volumes exchanged
+    try:
+        from .drivers import c02
+        good = c02.record("4", "5", "[0.2, 0.3]", False, 2)
+        bad = copy.deepcopy(good)
+        i = next(k for k in range(1, len(bad["vol"])) if bad["vol"][k] != bad["vol"][0])
+        bad["vol"][0], bad["vol"][i] = bad["vol"][i], bad["vol"][0]
+        expect("Product_Trace: two 6D volumes exchanged", _run(ctx, "Product_Trace", "Product_Trace.cfg", [good, bad], "st_prod"), [1])
+    except Exception as ex:
+        results.append(("Product_Trace demo", False, repr(ex)[:200]))
+
+    # C04 / C03: a real grid vs one distance class changed / one adjacency pair dropped
+    try:
+        from .drivers import c04, c03
+        good = c04.record("cube4D", 6)
+        bad = copy.deepcopy(good)
+        bad["dists"][0][2] = bad["dists"][0][2] + 1 if bad["dists"][0][2] + 1 != bad["dists"][1][2] else bad["dists"][0][2] + 2
+        expect("Fold_Trace: one rotation distance moved to another value class", _run(ctx, "Fold_Trace", "Fold_Trace.cfg", [good, bad], "st_fold"), [1])
+        good = c03.record("ico", 9)
+        bad = copy.deepcopy(good)
+        drop = bad["adj"][0]
+        bad["adj"] = [p for p in bad["adj"] if p != drop and p != drop[::-1]]
+        expect("SphereCells_Trace: one neighbour pair missing from the adjacency", _run(ctx, "SphereCells_Trace", "SphereCells_Trace.cfg", [good, bad], "st_s2"), [1])
+    except Exception as ex:
+        results.append(("Fold_Trace / SphereCells_Trace demos", False, repr(ex)[:200]))
+
+    # C14 / pipeline: a real pipeline trace vs the same trace with the Read(volumes) event removed (a hook removed)
+    try:
+        from .drivers import c14
+        import pathlib
+        gd = ctx.scratch / "st_pipe"
+        gd.mkdir(exist_ok=True)
+        ev = []
+        c14.pipeline(0, ("1", "4", "[0.2, 0.35]", False, 2), gd, random.Random(4), ev)
+        cut = [dict(e, tid=1) for e in ev if not (e["ev"] == "Read" and e.get("art") == "volumes")]
+        cut.insert(0, dict(tid=1, ev="NewSpec", err=""))
+        cfg = ctx.cfg("st_mt.cfg", "SPECIFICATION TraceSpec\nCONSTANTS\n  Specs = {0, 1}\n  Bug = \"none\"\nINVARIANT OneCellOrder\nPOSTCONDITION AllConsumed\n")
+        rej = ctx.validate("Molgri_Trace", cfg, ev + cut, name="st_pipe")
+        got = sorted({r[0] for r in rej})
+        results.append(("Molgri_Trace: a Read event removed from a recorded pipeline (BuildRate no longer enabled in the model)", got == [1], f"rejected tids {got}, expected [1]"))
+    except Exception as ex:
+        results.append(("Molgri_Trace demo", False, repr(ex)[:200]))
+
+    # G09: a hand-written collection vs a failed frame dropped from the table
+    frame = lambda *kv: [dict(kind=k, v=v) for k, v in kv]
+    files = [frame(("final", -76100000), ("time", 0)), frame(("other", 0), ("time", 0)), frame(("final", -76300000), ("final", -76200000))]
+    good = dict(files=files, table=[-76100000, 0, -76200000], kj9=0, names_ok=True, inp_ok=True, err="")
+    bad = dict(good, table=[-76100000, -76200000])
+    bad2 = dict(good, table=[-76100000, 0, -76300000])
+    expect("Orca_Trace: failed frame dropped / first instead of last energy", _run(ctx, "Orca_Trace", "Orca_Trace.cfg", [good, bad, bad2], "st_orca"), [1, 2])
+
     # negative model configurations (each must be found by TLC)
     try:
         ctx.mutant("Fold", ctx.cfg("st_fold.cfg", "SPECIFICATION Spec\nCONSTANTS\n  N = 3\n  Weights = {1, 2}\n  Bug = \"zeroIndexFalsy\"\n  AllowSelfTouch = FALSE\nINVARIANT Symmetric\n"), "Symmetric")
